@@ -101,7 +101,7 @@ func (w *worker) start() error {
 	}
 	w.stderr = &ring{}
 	cmd := exec.Command(w.bin, "-test.run", "^TestWorker$", "-test.timeout", "0", "-test.count", "1")
-	cmd.Env = append(os.Environ(), "VERIF_WORKER=1")
+	cmd.Env = append(os.Environ(), "VERIF_WORKER=1", "GOMEMLIMIT=3GiB")
 	cmd.Env = append(cmd.Env, w.env...)
 	cmd.ExtraFiles = []*os.File{pw}
 	cmd.Stderr = w.stderr
@@ -201,6 +201,30 @@ func crashSignature(stderr string, exitErr error) (kind, sig, detail string) {
 	return "process-exit", "process exited: " + code, "worker process exited without a result (" + code + "); last output:\n" + t
 }
 
+func tailStr(s string, n int) string {
+	if len(s) > n {
+		return s[len(s)-n:]
+	}
+	return s
+}
+
+// rssBytes returns the resident set size of the worker process (0 if unknown).
+func (w *worker) rssBytes() int64 {
+	if w.cmd == nil || w.cmd.Process == nil {
+		return 0
+	}
+	b, err := os.ReadFile(fmt.Sprintf("/proc/%d/statm", w.cmd.Process.Pid))
+	if err != nil {
+		return 0
+	}
+	f := strings.Fields(string(b))
+	if len(f) < 2 {
+		return 0
+	}
+	pages, _ := strconv.ParseInt(f[1], 10, 64)
+	return pages * int64(os.Getpagesize())
+}
+
 // run executes one job; crashed reports that the worker died or was killed.
 func (w *worker) run(job *Job, timeout time.Duration) (res *Result, crashed bool) {
 	if w.cmd == nil {
@@ -239,7 +263,19 @@ func (w *worker) run(job *Job, timeout time.Duration) (res *Result, crashed bool
 			w.stdin.Close()
 			w.resFile.Close()
 			w.cmd = nil
-			kind, sig, detail := crashSignature(w.stderr.String(), exitErr)
+			stderrText := w.stderr.String()
+			if (exitErr != nil && strings.Contains(exitErr.Error(), "signal: killed")) ||
+				strings.Contains(stderrText, "fatal error: runtime: out of memory") ||
+				strings.Contains(stderrText, "fatal error: out of memory") ||
+				strings.Contains(stderrText, "runtime: cannot allocate memory") {
+				// SIGKILL cannot come from the code under test: it is the kernel's
+				// out-of-memory killer (the sandbox has no memory limit and the
+				// scratch trees live in tmpfs) or an operator. Resource exhaustion
+				// is outside every property here, so this is never a violation.
+				return &Result{Prop: job.Prop, Seed: job.Seed, Index: job.Index,
+					Inconclusive: fmt.Sprintf("worker killed / out of memory (%v) in job seed=%d index=%d; last output: %s", exitErr, job.Seed, job.Index, firstN(tailStr(stderrText, 600), 600))}, true
+			}
+			kind, sig, detail := crashSignature(stderrText, exitErr)
 			return &Result{Prop: job.Prop, Seed: job.Seed, Index: job.Index,
 				Violation: &Violation{Kind: kind, Signature: sig, Detail: detail}}, true
 		}
@@ -628,6 +664,8 @@ func cmdRun(prop string, args []string) int {
 				}
 				if meta.MaxJobsPerWorker > 0 && jobsDone > 0 && jobsDone%meta.MaxJobsPerWorker == 0 {
 					w.stop() // fresh process (e.g. landlock layers accumulate per daemon start)
+				} else if w.rssBytes() > 1500<<20 {
+					w.stop() // keep the pool's memory bounded: the sandbox has no limit of its own
 				}
 				jobsDone++
 				res, crashed := w.run(job, tc.JobTimeout)
